@@ -2,7 +2,7 @@
 C14 - probed system description and derived machine model match the machine.
 Property theorems; long proofs live in RigModel/Lemmas/C14.lean.
 -/
-import RigModel.Lemmas.C14n
+import RigModel.Lemmas.C14o
 set_option linter.unusedSimpArgs false
 set_option linter.unusedVariables false
 
@@ -443,6 +443,18 @@ example : exMachine.Serves exRd ∧ (∃ xy, exMachine.listed xy = true) ∧
       simp only [SPINNAKER_RTR_P2P, P2P_REGION, SV_BASE, SV_P2P_DIMS_OFF] at *
       omega
     simp only [exRd, this, if_false]
+
+/-- **Struct fields.** `read_struct_field` / `read_vcpu_struct_field` of a scalar field of 1, 2 or 4 bytes return
+the value whose little-endian bytes the chip's memory holds at the field's documented offset (the value of THAT
+chip's memory: the model has no other input); the table `p2p_ok` judges against is the table of `p2p_roundtrip`. -/
+theorem struct_field_exact (rd : Rd) (fields : List (String × Nat × Nat × Bool × Nat)) (base : Nat) (name : String)
+    (off size v : Nat) (hf : fields.find? (·.1 == name) = some (name, off, size, false, 1))
+    (hs : size = 1 ∨ size = 2 ∨ size = 4) (hv : v < 256 ^ size) (hrd : rd (base + off) size = leN size v) :
+    structField rd fields base name = .ok v ∧ ∀ m : MachineState, m.specTable = m.table :=
+  ⟨structField_exact rd fields base name off size v hf hs hv hrd, specTable_eq⟩
+
+/-- non-vacuity: `sv.iobuf_size` is such a field -/
+example : SV_FIELDS.find? (·.1 == "iobuf_size") = some ("iobuf_size", 80, 4, false, 1) := by decide
 
 /-! ## the oracles the harness evaluates on the implementation's outputs -/
 
